@@ -223,7 +223,10 @@ class ProcGen:
                 else:
                     hi = ("read", b, []) if b in ("n", "m") else ("const", str(b))
                 body = self.block(env, loops + [(v, b, slack)], depth + 1, rng.randint(1, 3), in_if)
-                out.append(("for", v, ("const", "0"), hi, body or [("pass",)]))
+                # non-zero lower bounds on purpose: a pattern `for i in seq(0, _): _` must not match `seq(1, ..)`
+                # (n, m > 4 are asserted, so 1 and 2 stay below every upper bound used here)
+                lo = ("const", rng.choice(["0", "0", "0", "1", "2"]))
+                out.append(("for", v, lo, hi, body or [("pass",)]))
             elif r < 0.68 and depth < 3:
                 body = self.block(env, loops, depth + 1, rng.randint(1, 2), True)
                 orelse = self.block(env, loops, depth + 1, rng.randint(1, 2), True) if rng.random() < 0.5 else []
@@ -290,6 +293,8 @@ FIXED_STMT_PATS = [
     "_ = _", "_ += _", "x[_] = _", "x = _", "_[_] = _", "y[_, _] = _", "y[_] = _", "z = _", "x[_] += _", "t[_] = _", "t = _",
     "w = _", "w = y[_]", "w[_] = _",
     "for _ in _: _", "for i in _: _", "for j in _: _", "for i in seq(0, n): _", "for i in seq(_, _): _", "for i in seq(0, _): _",
+    "for i in seq(1, _): _", "for _ in seq(0, _): _", "for _ in seq(1, _): _", "for j in seq(2, _): _", "for _ in seq(2, _): _",
+    "for i in seq(_, n): _", "for _ in seq(_, m): _", "for _ in seq(1, n): _", "for i in seq(5, _): _",
     "for i in _:\n  for j in _: _", "for i in _:\n  x[_] = _", "for i in _:\n  _\n  x[_] = _", "for _ in _:\n  pass",
     "if _: _", "if _:\n  _\nelse:\n  _", "if i < 3: _", "if _ < _: _", "if _:\n  pass", "if _:\n  _\nelse:\n  pass",
     "t : _", "_ : _", "u : _", "t : f32[n]", "t : f32[_]", "t : f32[_, _]", "t : f32[m]", "t: R[4]", "_ : f32[n, m]",
